@@ -71,7 +71,7 @@ impl Dictionary {
     /// Parses an existing dictionary file.
     pub fn from_existing(buffer: ByteSpan) -> Option<Dictionary> {
         let mut cursor = Cursor::new(buffer);
-        let mut dict = DictionaryHeader::read(&mut cursor).unwrap();
+        let mut dict = DictionaryHeader::read(&mut cursor).ok()?;
 
         let map_start = 0x8750u32;
         let map_size = 0x200u32;
